@@ -11,6 +11,12 @@ BASE = ("Static structural necessary conditions of the property, decided from /r
 
 # id -> (implemented, technique, what is decided, what is not / trusted)
 CHECKS = {
+ "C03": (True, "abstract interpretation of the per-record worker: per-column transfer function over all 17x17 symbol pairs in both gap modes vs IUPAC base-set oracle; constant-table extraction; SSA argument-flow for the flag",
+         "encoding/decoding tables over all bytes and pairs; getSNPs appends exactly ref+pos+alt iff base sets are disjoint, for every symbol pair and both gap modes, with the 1-based ascending loop index; row carries record id/index; unequal width goes to the error channel; --hard-gaps reaches both readers and selects the hard-gap table; pool output is index re-ordered.",
+         "Trusted: go/types, go/ssa, checker/eval, checker/oracle. Not decided: FASTA reading itself (C16), the writer's byte layout beyond the constructs checked under C12/C19."),
+ "C07": (True, "abstract interpretation of the three distance functions: per-column transfer functions over 17x17 symbol pairs classified against specified column classes; algebraic normalisation (rational functions with log atoms) of the returned expression against Tamura-Nei eq. 7 written independently",
+         "per-column contribution of every counter in rawDistance/snpDistance/tn93Distance for all 289 symbol pairs; the returned expression equals n/d, n, and TN93 eq. 7 as an algebraic identity; base-count fields are filled from the table codes of A,C,G,T by the scoring reader only; distance arguments are (query parameter, channel-fed target).",
+         "Trusted: go/types, go/ssa, checker/eval, checker/algebra, checker/oracle. Not decided: floating-point rounding; inputs where eq. 7's logarithms are undefined (excluded by the property)."),
  "C17": (True, "constant-table extraction by abstract interpretation of the constructors' syntax trees; exhaustive comparison with an independent IUPAC / standard-genetic-code oracle",
          "the codon dictionary over all 3375 IUPAC codons, both complement tables over all 256 bytes, encoding/decoding tables, Translate on every single codon in both modes, Complement/ReverseComplement and the four record methods on every accepted symbol and distinct-symbol strings of length 0..8.",
          "Trusted: go/types, the evaluator (checker/eval), the oracle tables (checker/oracle). Not decided: strings longer than the evaluated lengths are covered only by the observation that these functions never branch on symbol identity except through the extracted tables."),
